@@ -35,9 +35,14 @@ package keeper
 //@ requires decoded: forall(j, 0, len(reqs), reqs[j] != nil)
 //@ ensures queued: err == nil ==> len(st.locking.EthTxQueue.Rewards) == old(len(st.locking.EthTxQueue.Rewards)) + len(reqs)
 //@ ensures fifo: err == nil ==> forall(j, 0, old(len(st.locking.EthTxQueue.Rewards)), st.locking.EthTxQueue.Rewards[j] == old(st.locking.EthTxQueue.Rewards[j]))
+// a claim pays once: a second claim for the same validator in the same batch pays nothing (the first one reset the record).
+// (The companion clause "the first claim pays exactly the accrued amount" needs an untouched-records invariant with a
+// quantified antecedent that none of the solvers instantiates within the budget; not stated.)
+//@ ensures paid_repeat: err == nil ==> forall(j, 0, len(reqs), forall(i, 0, j, reqs[i].Validator == reqs[j].Validator ==> st.locking.EthTxQueue.Rewards[old(len(st.locking.EthTxQueue.Rewards)) + j].Goat == 0))
 //@ ensures zeroed: err == nil ==> forall(j, 0, len(reqs), st.locking.Validators[reqs[j].Validator].Reward == 0 && st.locking.Validators[reqs[j].Validator].GasReward == 0)
 //@ loop 0 invariant idx: -1 <= rangeindex && rangeindex < len(reqs)
 //@ loop 0 invariant len: len(queue.Rewards) == old(len(st.locking.EthTxQueue.Rewards)) + rangeindex + 1
+//@ loop 0 invariant paid_repeat: forall(j, 0, rangeindex + 1, forall(i, 0, j, reqs[i].Validator == reqs[j].Validator ==> queue.Rewards[old(len(st.locking.EthTxQueue.Rewards)) + j].Goat == 0))
 //@ loop 0 invariant fifo: forall(j, 0, old(len(st.locking.EthTxQueue.Rewards)), queue.Rewards[j] == old(st.locking.EthTxQueue.Rewards[j]))
 //@ loop 0 invariant zeroed: forall(j, 0, rangeindex + 1, st.locking.Validators[reqs[j].Validator].Reward == 0 && st.locking.Validators[reqs[j].Validator].GasReward == 0)
 //@ modifies st.locking.Validators, st.locking.EthTxQueue
@@ -100,7 +105,8 @@ package keeper
 // fail (A-store); the bodies touch only the entries of their own key and the produced updates are a set
 // (CometBFT sorts validator updates, A-comet). This is declared, not proved.
 //@ func (Keeper).EndBlocker
-//@ property C07 C13 C19
+// C14 / C15 rest on its status_step clause as well (a tombstoned or exited validator is never flipped back to Pending)
+//@ property C07 C13 C19 C14 C15
 //@ nopanic
 //@ opt maporder0=returns-dead: members of ValidatorSet have a Validators record (RI L2); collections Set/Remove do not fail
 // C13, per-step safety of the set update under the ranking representation invariant (the iterators and the map loop are
